@@ -17,7 +17,7 @@ PROP_MODULES = {
     "C05": ["contracts.c05", "contracts.c05c", "contracts.c05_bounded", "contracts.c05_fields_bounded", "contracts.c06", "contracts.c15", "contracts.c01", "contracts.c04"],
     "C11": ["contracts.c11", "contracts.c09", "contracts.c11_bounded", "contracts.c02", "contracts.c06b"],
     "C19": ["contracts.c19", "contracts.c19b", "contracts.c19_bounded", "contracts.c02", "contracts.c15"],
-    "C12": ["contracts.c12", "contracts.c12b", "contracts.c12c", "contracts.c12_bounded", "contracts.c10", "contracts.c13c"],
+    "C12": ["contracts.c12", "contracts.c12b", "contracts.c12c", "contracts.c12_bounded", "contracts.c10", "contracts.c13c", "contracts.c02"],
     "C13": ["contracts.c13", "contracts.c13b", "contracts.c13c", "contracts.c13_bounded", "contracts.c11", "contracts.c12", "contracts.c12c", "contracts.c10"],
     "C14": ["contracts.c14", "contracts.c14_bounded", "contracts.c08", "contracts.c08b", "contracts.c17", "contracts.c13", "contracts.c13c"],
     "C06": ["contracts.c06", "contracts.c06b", "contracts.c06_bounded"],
@@ -26,9 +26,9 @@ PROP_MODULES = {
     "C15": ["contracts.c15", "contracts.c13", "contracts.c08", "contracts.c08b", "contracts.c10", "contracts.c17", "contracts.c14", "contracts.c12", "contracts.c12b", "contracts.c12c", "contracts.c15_bounded"],
     "C16": ["contracts.c16", "contracts.c16_bounded", "contracts.c13c"],
     "C09": ["contracts.c09", "contracts.c09_bounded", "contracts.c08", "contracts.c10b", "contracts.c06b"],
-    "C10": ["contracts.c10", "contracts.c10b", "contracts.c10_bounded", "contracts.c09"],
-    "C17": ["contracts.c17", "contracts.c05", "contracts.c05c", "contracts.c17_bounded", "contracts.c08b"],
-    "C18": ["contracts.c18", "contracts.c18_bounded"],
+    "C10": ["contracts.c10", "contracts.c10b", "contracts.c10_bounded", "contracts.c09", "contracts.c12c"],
+    "C17": ["contracts.c17", "contracts.c05", "contracts.c05c", "contracts.c17_bounded", "contracts.c08b", "contracts.c15"],
+    "C18": ["contracts.c18", "contracts.c18_bounded", "contracts.c12"],
 }
 
 
@@ -46,7 +46,7 @@ RELATED = {
     "C10": ["contracts.c08", "contracts.c12", "contracts.c13", "contracts.c09_bounded", "contracts.c13_bounded"],
     "C12": ["contracts.c13", "contracts.c17", "contracts.c13_bounded"],
     "C17": ["contracts.c12", "contracts.c03_bounded", "contracts.c14"],
-    "C15": ["contracts.c13_bounded"],
+    "C15": ["contracts.c13_bounded", "contracts.c10_bounded"],
     "C18": ["contracts.c15", "contracts.c01", "contracts.c01b", "contracts.c05"],
 }
 
